@@ -77,9 +77,13 @@ class Prov:
     ('upvar', name)  -- closure capture
     """
 
-    def __init__(self, fn: Fn, max_depth=24):
+    def __init__(self, fn: Fn, max_depth=24, parent=None, F=None, inline=0, _stack=()):
         self.fn = fn
         self.max_depth = max_depth
+        self.parent = parent          # Prov of the enclosing function (closures): captured variables resolve through it
+        self.F = F                    # fact base: enables bounded inlining of small workspace callees
+        self.inline = inline          # inlining bound (call depth); 0 = intraprocedural
+        self._stack = _stack + (fn.id,)
         self.defs = {}
         self.partial = {}
         for bi, si, s in fn.stmts():
@@ -134,7 +138,7 @@ class Prov:
             key = tuple(_pkey(e) for e in p["p"] if e != "*")
             for n in range(len(key), 0, -1):
                 if key[:n] in self.upvars:
-                    base = ("upvar", self.upvars[key[:n]])
+                    base = self._captured(self.upvars[key[:n]])
                     rest = [e for e in p["p"] if e != "*"][n:]
                     return self._project(base, rest, depth, seen)
         # a partially-assigned aggregate: `_5.0 = x`
@@ -145,6 +149,29 @@ class Prov:
                     return self._project(base, p["p"][len(proj):], depth, seen)
         base = self.local(p["l"], depth, seen)
         return self._project(base, p["p"], depth, seen)
+
+    def _captured(self, name):
+        """A closure's captured variable: the enclosing function's value of that variable when the enclosing Prov is
+        known (so a loop body moved into a closure has the same provenance as before), else an opaque ('upvar', name)."""
+        if self.parent is not None:
+            e = self.parent.by_name(name)
+            if e is not None:
+                return e
+        return ("upvar", name)
+
+    def by_name(self, name):
+        """Provenance of the source-level variable `name` of this function (all its bindings joined)."""
+        if self.fn.kind == "Closure" and name in self.upvars.values():
+            return self._captured(name)
+        ls = sorted(l for l, n in self.fn.names.items() if n == name)
+        if not ls:
+            return None
+        es = []
+        for l in ls:
+            e = self.local(l)
+            if e not in es:
+                es.append(e)
+        return es[0] if len(es) == 1 else ("phi", es)
 
     def local(self, l, depth=0, seen=frozenset()):
         if l in seen or depth > self.max_depth:
@@ -230,7 +257,38 @@ class Prov:
             return args[0]
         if is_try_branch(c.path):
             return ("try", args[0])
+        if self.inline > 0 and self.F is not None:
+            callee = self.F.fns.get(c.cid)
+            if callee is not None and callee.kind != "Closure" and callee.id not in self._stack and len(callee.blocks) <= INLINE_MAX_BLOCKS \
+                    and callee.argc == len(args):
+                body = Prov(callee, self.max_depth, F=self.F, inline=self.inline - 1, _stack=self._stack).local(0)
+                # the call node keeps its identity (rules naming the helper still match); the 5th element is the helper's
+                # result expression with its parameters replaced by the actual arguments (rules naming what the helper
+                # calls match as well) — so a rule holds whether or not a thin helper sits in between
+                return ("call", c.path, args, c, subst_params(body, args))
         return ("call", c.path, args, c)
+
+
+INLINE_MAX_BLOCKS = 80
+
+
+def subst_params(e, args):
+    """Replace ('param', name, i) leaves of a callee's expression by the caller's argument expressions."""
+    if not isinstance(e, tuple):
+        return e
+    if e[0] == "param" and isinstance(e[2], int) and 1 <= e[2] <= len(args):
+        return args[e[2] - 1]
+    out = []
+    for x in e:
+        if isinstance(x, tuple):
+            out.append(subst_params(x, args))
+        elif isinstance(x, list):
+            out.append([subst_params(y, args) if isinstance(y, tuple) else y for y in x])
+        elif isinstance(x, dict):
+            out.append({k: (subst_params(v, args) if isinstance(v, tuple) else v) for k, v in x.items()})
+        else:
+            out.append(x)
+    return tuple(out)
 
 
 def _pkey(e):
@@ -1033,3 +1091,24 @@ def forwarding_calls(F, fn, target_suffix, depth=2):
 def facts_suffix(path, pat):
     from .facts import suffix_match
     return suffix_match(path, pat)
+
+
+def family(F, fn, _parent=None):
+    """[(function, Prov)] for `fn` and every closure nested in it; closure Provs resolve captured variables through
+    the enclosing function, so `for x in xs { f(x, y) }` and `xs.iter().try_for_each(|x| f(x, y))` look alike."""
+    p = Prov(fn, parent=_parent)
+    out = [(fn, p)]
+    pre = fn.id + "::{closure#"
+    for cid, c in F.fns.items():
+        if cid.startswith(pre) and "::{closure#" not in cid[len(pre):]:
+            out.extend(family(F, c, p))
+    return out
+
+
+def family_calls(F, fn, pred):
+    """[(owner fn, Call, Prov)] over the function and its nested closures."""
+    out = []
+    for f, p in family(F, fn):
+        for c in f.calls_to(pred):
+            out.append((f, c, p))
+    return out
